@@ -348,6 +348,11 @@ ZOO = [
     # 11: containers whose notes were set in place: a doubled unison, enharmonic pairs, notes not in pitch order
     [{"key": "C", "meter": [4, 4], "entries": [_e("4", [["C##", 4], ["D", 4], ["F", 4]], "set"), _e("4", [["E", 4], ["E", 4]], "set"),
                                                 _e("4", [["A", 4], ["E", 4], ["Fb", 4]], "set"), _e("4", [["B#", 3], ["C", 4]], "set")]}],
+    # 16: a bar in the free meter (0, 0) -- it holds any number of notes -- between two ordinary bars, and one at the end
+    [{"key": "C", "meter": [4, 4], "entries": [_e("1", [["C", 4], ["G", 4]], "nc")]},
+     {"key": "C", "meter": [0, 0], "entries": [_e("1", [["E", 4]], "note"), _e("1", [["D", 4], ["F", 4], ["A", 4]], "nc"), _e("2", None), _e("1", [["B", 4]], "text")]},
+     {"key": "C", "meter": [2, 4], "entries": [_e("2", [["A", 3]], "note")]},
+     {"key": "F", "meter": [0, 0], "entries": [_e("4", [["Bb", 4], ["D", 5]], "list")]}],
     # 8: built with Track.from_chords from a sheet that repeats its chord symbols (every occurrence is its own chord)
     [{"key": "C", "meter": [4, 4], "entries": [_e("1", [["C", 4], ["E", 4], ["G", 4]], "nc")], "from_chords": ["C", "Am", "C", "Am"]},
      {"key": "C", "meter": [4, 4], "entries": [_e("1", [["A", 4], ["C", 5], ["E", 5]], "nc")]},
@@ -820,7 +825,7 @@ def explore(ctx):
         depth = ctx.pick(3, 4)
         aset = ctx.pick("narrow", "narrow")
         # quick: the chord-only and the tuplet-value track (many notes, nothing structurally new) go one level less deep
-        depths = {i: (depth - 1 if (ctx.quick and i in (1, 3, 6, 7, 8, 9, 10, 11, 12, 13, 14, 15)) else depth) for i in range(len(ZOO))}
+        depths = {i: (depth - 1 if (ctx.quick and i in (1, 3, 6, 7, 8, 9, 10, 11, 12, 13, 14, 15, 16)) else depth) for i in range(len(ZOO))}
         ctx.bound("history_depth", {str(i): d for i, d in depths.items()})
         ctx.bound("history_actions", {"set": aset, "targets": {str(i): action_targets(i, aset) for i in range(len(ZOO))}, "ops": bfs_ops()})
         for i in range(len(ZOO)):
